@@ -35,3 +35,8 @@ Section Generic.
   Definition nnorm2sq (a : list T) : T := nsum (map nsq a).
   Definition nnorm2 (a : list T) : T := nsqrt (nnorm2sq a).
 End Generic.
+
+(* int(x): truncation toward zero of a Python float *)
+Class NumI (T : Type) := { ntrunc : T -> Z }.
+(* exp / log, only instantiated for R *)
+Class NumX (T : Type) := { nexp : T -> T; nln : T -> T }.
